@@ -194,9 +194,13 @@ func cfgPL(name string) explore.Config {
 func runC06(c *explore.Ctx) {
 	var spaces []plSpace
 	if c.Thorough() {
-		spaces = []plSpace{{"E", "ROLL", 5}, {"E", "ROLL+SW", 5}, {"E", "ROLL1", 4}, {"E", "ROLL1+SW", 4}, {"E", "BIGC", 4}, {"E", "BIGC+SW", 4}, {"S2", "ROLL", 4}, {"S2", "ROLL+SW", 4}, {"T", "BIGC", 3}}
+		spaces = []plSpace{{"E", "ROLL", 5}, {"E", "ROLL+SW", 5}, {"E", "ROLL1", 4}, {"E", "ROLL1+SW", 4}, {"E", "BIGC", 4}, {"E", "BIGC+SW", 4}, {"S2", "ROLL", 4}, {"S2", "ROLL+SW", 4}, {"T", "BIGC", 3},
+			{"RU", "ROLL", 5}, {"T!hdr3", "BIGC", 3}, {"T!torn", "BIGC", 3}, {"S2!torn", "ROLL", 3}, {"S2!unclean", "ROLL", 3}}
 	} else {
-		spaces = []plSpace{{"E", "ROLL", 3}, {"E", "ROLL+SW", 3}, {"E", "ROLL1", 3}, {"E", "ROLL1+SW", 3}, {"E", "BIGC", 3}, {"S2", "ROLL", 3}, {"S2", "ROLL+SW", 2}}
+		spaces = []plSpace{{"E", "ROLL", 3}, {"E", "ROLL+SW", 3}, {"E", "ROLL1", 3}, {"E", "ROLL1+SW", 3}, {"E", "BIGC", 3}, {"S2", "ROLL", 3}, {"S2", "ROLL+SW", 2},
+			// sessions that follow an earlier failure (torn size header / torn record left in the newest segment), and a log
+			// whose file-name order is not its sequence order (ids reused after a compaction) restarted and rolled over
+			{"RU", "ROLL", 4}, {"T!hdr3", "BIGC", 2}, {"T!torn", "BIGC", 2}, {"S2!unclean", "ROLL", 2}}
 	}
 	runPowerSpaces(c, spaces, false)
 	if c.Expired() || c.NViolations() > 0 {
@@ -226,6 +230,14 @@ func uncleanVariant(base *explore.Base, name string) *explore.Base {
 	b2 := *base
 	b2.Image = base.Image.Clone()
 	b2.Image.SetBytes(explore.DBPath+"/lock", nil)
+	if strings.HasSuffix(name, "!hdr3") {
+		// the earlier power failure tore an append inside the 6-byte size header of a record: 3 bytes of it survive
+		d := refmodel.ReplayDir(explore.SegmentFiles(b2.Image))
+		if len(d.Segments) > 0 {
+			seg := explore.DBPath + "/" + d.Segments[len(d.Segments)-1].Name
+			b2.Image.SetBytes(seg, append(append([]byte(nil), b2.Image.Bytes(seg)...), 0x07, 0x00, 0x09))
+		}
+	}
 	if strings.HasSuffix(name, "!torn") {
 		d := refmodel.ReplayDir(explore.SegmentFiles(b2.Image))
 		if len(d.Segments) > 0 {
@@ -246,7 +258,7 @@ func runPowerSpaces(c *explore.Ctx, spaces []plSpace, afterCloseOnly bool) {
 		if c.Expired() || c.NViolations() > 0 {
 			return
 		}
-		bname := strings.TrimSuffix(strings.TrimSuffix(sp.Base, "!unclean"), "!torn")
+		bname := strings.TrimSuffix(strings.TrimSuffix(strings.TrimSuffix(sp.Base, "!unclean"), "!torn"), "!hdr3")
 		base, err := explore.GetBase(bname, cfgPL(sp.Cfg), 0)
 		if err != nil {
 			c.HarnessError("%v", err)
@@ -407,7 +419,7 @@ func replayPower(rep map[string]interface{}) (string, error) {
 		return "", err
 	}
 	sp := plSpace{Base: fmt.Sprint(rep["base"]), Cfg: fmt.Sprint(rep["cfg"])}
-	base, err := explore.GetBase(strings.TrimSuffix(strings.TrimSuffix(sp.Base, "!unclean"), "!torn"), cfgPL(sp.Cfg), 0)
+	base, err := explore.GetBase(strings.TrimSuffix(strings.TrimSuffix(strings.TrimSuffix(sp.Base, "!unclean"), "!torn"), "!hdr3"), cfgPL(sp.Cfg), 0)
 	if err != nil {
 		return "", err
 	}
